@@ -97,6 +97,10 @@ def main(argv=None):
     if args.only:
         jobs = [j for j in jobs if re.search(args.only, j[0])]
     opts = dict(getattr(mod, "OPTS", {}))
+    if args.tier == "thorough":
+        for k in ("max_paths", "budget_s"):      # the quick caps do not carry over; thorough caps come from OPTS_THOROUGH
+            opts.pop(k, None)
+        opts.update(getattr(mod, "OPTS_THOROUGH", {}))
     opts.setdefault("qtimeout", 20.0 if args.tier == "quick" else 60.0)
     opts.setdefault("otimeout", 30.0 if args.tier == "quick" else 300.0)
     opts.setdefault("path_obligation_budget", 120.0 if args.tier == "quick" else 1500.0)
